@@ -4,8 +4,8 @@ CONSTANTS
   CleanupIds = {"c1"}
   DetailNames <- NamesMid
   Mismatches = {"m1", "m2"}
-  Attrs = {"a_missing"}
-  Fixtures = {"f_tb", "f_bad", "f_cr"}
+  Attrs = {"a_missing", "a_none"}
+  Fixtures = {"f_tb", "f_two", "f_bad", "f_cr"}
   MaxFaults = 1
   MaxSteps = 2
   MaxTotalSteps = 2
